@@ -75,6 +75,16 @@ def check_vector(v):
         want.pop()
     if o[0] != "ok" or [x for x in o[1]] + [0] * (len(want) - len(o[1])) != want + [0] * (len(o[1]) - len(want)):
         rep("bincount", want, o)
+    # quantiles by counting: on the stream and on the concatenated array (and from the bin counts of the specification)
+    from bionumpy.streams.reductions import quantile
+    qs = np.array([0.25, 0.5, 0.9])
+    so = outcome(lambda: [int(x) for x in np.atleast_1d(quantile(BnpStream(iter(arr_chunks)), qs)).tolist()])
+    mo = outcome(lambda: [int(x) for x in np.atleast_1d(quantile(np.array(vals, dtype=int), qs)).tolist()])
+    calls += 2
+    cum = np.cumsum(list(v["bins"]))
+    wantq = [int(x) for x in np.searchsorted(cum, qs * cum[-1]).tolist()]
+    if so != mo or so != ("ok", wantq):
+        rep("quantile", wantq, so if so != ("ok", wantq) else mo)
     nb = len(v["bins"])
     o = outcome(lambda: [int(x) for x in histogram(BnpStream(iter(arr_chunks)), bins=nb, range=(0, nb))[0].tolist()])
     calls += 1
